@@ -756,6 +756,7 @@ static void gen(const char *prop, RunSpec &spec)
 	static const int64_t RES[] = { 1, 1, 1000000, 4000000, 10000000 };
 	p.set("clock_res_ns", RES[r.below(5)]);
 	p.set("rate_eintr", r.chance(1, 3) ? (int64_t)r.range(300, 4000) : 0);
+	{ static const int64_t TICK[] = { 1000000, 4000000, 4000000, 10000000 }; p.set("coarse_tick_ns", TICK[r.below(4)]); }   // HZ 1000 / 250 / 100
 	p.set("rate_shuffle", r.chance(1, 2) ? (int64_t)r.range(2000, 30000) : 0);
 	// clock base: ordinary uptime, or close to 2^63 ns
 	uint64_t base = r.chance(3, 4) ? (uint64_t)r.range(1, 1000000) * 1000000000ULL + r.below(1000000000)
@@ -938,6 +939,7 @@ static void run(const char *prop, const RunSpec &spec)
 	L.clock_res_ns = std::max<int64_t>(1, std::min<int64_t>(1000000000, p.get("clock_res_ns", 1)));
 	c.clock_res_ns = L.clock_res_ns;
 	c.rate_eintr = (uint32_t)std::max<int64_t>(0, std::min<int64_t>(20000, p.get("rate_eintr")));
+	c.coarse_tick_ns = std::max<int64_t>(0, std::min<int64_t>(100000000, p.get("coarse_tick_ns", 4000000)));
 	c.rate_epoll_shuffle = (uint32_t)std::max<int64_t>(0, std::min<int64_t>(60000, p.get("rate_shuffle")));
 	c.epoll_zero_cost_ns = 1000;
 	// the kernel's ready list is fair; a batch shortened several times in a row is not, and would make a ready
